@@ -345,6 +345,12 @@ def random_stmt(rng: random.Random, budget: int, d: int, in_loop: bool, in_def: 
 def random_program(rng: random.Random, max_size: int = 7, max_depth: int = 3) -> list:
     while True:
         n = rng.randint(3, max_size)
-        p = random_list(rng, n, max_depth, False, False)
+        # most programs start by assigning one or both variables, so that reads further down are
+        # not trivially undefined (accepted / maybe / different-types cases are the interesting ones)
+        pre = []
+        for v in VARS:
+            if rng.random() < 0.55:
+                pre.append({"k": "asg", "v": v, "t": rng.choice(TYPES)})
+        p = pre + random_list(rng, max(1, n - len(pre)), max_depth, False, False)
         if size(p) >= 3 and size(p) <= max_size and depth(p) <= max_depth:
             return p
